@@ -57,7 +57,7 @@ class STEPDConfig(BaseWindowConfig):
         :type value: float
         :raises ValueError: Value error exception
         """
-        if value <= 0.0:
+        if not value > 0.0:
             raise ValueError("alpha_d must be greater than 0.0.")
         self._alpha_d = value
 
@@ -78,7 +78,7 @@ class STEPDConfig(BaseWindowConfig):
         :type value: float
         :raises ValueError: Value error exception
         """
-        if value <= 0.0:
+        if not value > 0.0:
             raise ValueError("alpha_w must be greater than 0.0.")
         if value <= self.alpha_d:
             raise ValueError("alpha_w must be greater than alpha_d.")
